@@ -338,6 +338,7 @@ void rt_run_begin(const SimCfg& cfg, uint64_t seed, const uint8_t* replay, size_
     if (g.cells_hi) memset(g_cells, 0, sizeof(int64_t) * g.cells_hi);
     g.cells_hi = 0;
     memset(g_probes, 0, sizeof g_probes);
+    rt_named_probes_reset();
     g.active = true;
 }
 
@@ -604,6 +605,32 @@ void rt_ledger_reset() {
     g.nev = 0;
     memset(g_probes, 0, sizeof g_probes);
 }
+// ---- named reach probes: the TLX_VERIF_PROBE hooks inside /repo ---------------
+namespace {
+constexpr int NP_CAP = 160;
+const char* np_name[NP_CAP];
+uint64_t np_count[NP_CAP];
+int np_n;
+} // namespace
+int rt_named_probes(const char** names, uint64_t* counts, int cap) {
+    int n = np_n < cap ? np_n : cap;
+    for (int i = 0; i < n; ++i) { names[i] = np_name[i]; counts[i] = np_count[i]; }
+    return n;
+}
+void rt_named_probes_reset() { for (int i = 0; i < np_n; ++i) np_count[i] = 0; }
+} // namespace sim
+
+// never a scheduling point, never influences a verdict
+extern "C" __attribute__((visibility("default"))) void tlx_verif_probe(const char* name) {
+    using namespace sim;
+    for (int i = 0; i < np_n; ++i)
+        if (np_name[i] == name) { np_count[i]++; return; }
+    for (int i = 0; i < np_n; ++i)
+        if (strcmp(np_name[i], name) == 0) { np_count[i]++; return; }
+    if (np_n < NP_CAP) { np_name[np_n] = name; np_count[np_n] = 1; np_n++; }
+}
+
+namespace sim {
 void rt_probe(uint32_t idx) { if (idx < RT_NPROBES) g_probes[idx]++; }
 uint64_t rt_probe_get(uint32_t idx) { return idx < RT_NPROBES ? g_probes[idx] : 0; }
 
